@@ -141,3 +141,39 @@ def loop_cond_exits(fv, head, body):
         b = ss[0][1]
         steps += 1
     return []
+
+
+def remove_while_indexing(fv):
+    """Sites of the idiom `while i != v.len() { if cond { v.remove(i) } else { i += 1 } }`: returns
+    [(remove_block, index_local, bad_increment_block or None)].  After `v.remove(i)` the next element has moved into
+    slot i, so an increment of i on a path from the remove back to the loop head skips it."""
+    import re as _re
+    out = []
+    lps = loops(fv)
+    for bi, t in fv.calls(_re.compile(r".*Vec::<T(, A)?>::(remove|swap_remove)$")):
+        idx = t["args"][1].get("c") or t["args"][1].get("m")
+        if not idx or idx.get("p"):
+            continue
+        # resolve copies: the index operand is usually a temporary copy of the loop variable
+        il = idx["l"]
+        src = il
+        for b2, si, s in fv.defs().get(il, []):
+            if si != "t" and s["rv"]["r"] == "use":
+                p = s["rv"]["o"].get("c") or s["rv"]["o"].get("m")
+                if p and not p.get("p"):
+                    src = p["l"]
+        inner = [(h, body) for h, body, backs in lps if bi in body]
+        if not inner:
+            continue
+        h, body = min(inner, key=lambda x: len(x[1]))
+        bad = None
+        after = fv.reach_after(bi, [h]) & body
+        for b in sorted(after):
+            for s in fv.blocks[b]["s"]:
+                rv = s.get("rv")
+                if rv and rv["r"] == "bin" and rv["op"].startswith("Add"):
+                    la = (rv["a"].get("c") or rv["a"].get("m") or {}).get("l")
+                    if la == src and (rv["b"].get("k") or {}).get("v") == 1:
+                        bad = b
+        out.append((bi, src, bad))
+    return out
